@@ -1067,6 +1067,8 @@ func Run(c *ev.Ctx) int {
 	run(func() { laneInternalNames(c, "I/sidecar", true) })
 	run(func() { laneSettingsVsObjects(c, "O/xattr", false) })
 	run(func() { laneSettingsVsObjects(c, "O/sidecar", true) })
+	run(func() { laneCreateCreate(c, false) })
+	run(func() { laneCreateCreate(c, true) })
 	ra := c.Rng("acl")
 	for i := 0; i < c.Pick(6, 200); i++ {
 		id := fmt.Sprintf("A/acl/%d", i)
